@@ -98,25 +98,71 @@ theorem cloneNetlist_closed (s : S) (off : OId) (hb : Below s off) :
   · intro d i h
     grind
 
+/-- the copy region and the original region of the id space -/
+abbrev CopyR (off : OId) : OId → Prop := fun x => off ≤ x
+abbrev OrigR (off : OId) : OId → Prop := fun x => x < off
+
 /-- after cloning, originals and copies are separated: no pointer of any kind crosses -/
-theorem sep_double (s : S) (off : OId) (hb : Below s off) : Sep (s.double off) off := by
+theorem sep_double (s : S) (off : OId) (hb : Below s off) : Sep (s.double off) (CopyR off) := by
   obtain ⟨b1,b2,b3,b4,b5,b6,b7,b8,b9,b10,b11,b12,b13,b14,b15,b16,b17,b18,b19,b20,b21,b22⟩ := hb
   simp only [S.double]
   constructor <;> grind [mem_shL, shO_eq_some, shO_eq_none, inner_mem_shPL, outer_mem_shPL]
 
+/-- separation does not care which side of the boundary is called the region -/
+theorem sep_compl (s : S) (R R' : OId → Prop) (h : ∀ x, R' x ↔ ¬ R x) (hs : Sep s R) : Sep s R' := by
+  obtain ⟨b1,b2,b3,b4,b5,b6,b7,b8,b9,b10,b11,b12,b13,b14,b15,b16,b17,b18,b19,b20,b21,b22⟩ := hs
+  constructor <;> grind
+
+theorem sep_double' (s : S) (off : OId) (hb : Below s off) : Sep (s.double off) (OrigR off) :=
+  sep_compl _ (CopyR off) (OrigR off) (fun x => by simp [CopyR, OrigR]) (sep_double s off hb)
+
+/-- `Op.below off` (BelowLemmas) is `Op.inside` for the original region -/
+theorem below_inside (off : OId) (op : Op) (h : op.below off) : op.inside (OrigR off) := by
+  cases op <;> simp only [Op.below, Op.inside, OrigR, PinRef.below, PinRef.inR, optBelow, optIn] at * <;>
+    first | exact h | grind [PinRef.below, PinRef.inR, optBelow, optIn]
+
 /-- **Independence (copy → original)**: "later edits or transformations of the clone never show in the
-    original" — after ANY history of public calls that mention only objects of the copy, every field of
-    every pre-existing object is what it was, and the two regions are still separated (so the statement
-    iterates). PARTIAL: the converse direction (edits of the original never show in the copy) is the
-    mirror-image statement `op.below off → HighEq`; it is not proved (it needs the 37 per-operation frame
-    lemmas once more) and is covered by the correspondence / fingerprint checks only. -/
+    original" — after ANY history of public calls that mention only objects of the copy (accepted or
+    refused, re-pointing and top changes included), every field of every pre-existing object is what it
+    was before cloning, and the two regions are still separated (so the statement iterates). -/
 theorem clone_edits_invisible_in_original (s : S) (off : OId) (hb : Below s off) (ops : List Op)
-    (ho : ∀ op ∈ ops, op.above off) :
-    LowEq (run (s.double off) ops).1 s off ∧ Sep (run (s.double off) ops).1 off := by
-  have h := run_sep off ops (s.double off) (sep_double s off hb) ho
-  refine ⟨lowEq_trans h.2 ?_, h.1⟩
+    (ho : ∀ op ∈ ops, op.inside (CopyR off)) :
+    OutEq (run (s.double off) ops).1 s (CopyR off) ∧ Sep (run (s.double off) ops).1 (CopyR off) := by
+  have h := run_sep (CopyR off) ops (s.double off) (sep_double s off hb) ho
+  refine ⟨outEq_trans h.2 ?_, h.1⟩
   have fr := cloneNetlist_frame s off
-  exact ⟨fr.1, fr.2.1, fr.2.2⟩
+  exact ⟨fun x hx => fr.1 x (Nat.not_le.mp hx), fun i q hi hq => fr.2.1 i q (Nat.not_le.mp hi) (Nat.not_le.mp hq),
+    fun d i hd hi => fr.2.2 d i (Nat.not_le.mp hd) (Nat.not_le.mp hi)⟩
+
+/-- the same in plain words: each field of each original object `x < off` is unchanged -/
+theorem clone_edits_invisible_fields (s : S) (off : OId) (hb : Below s off) (ops : List Op)
+    (ho : ∀ op ∈ ops, op.inside (CopyR off)) (x : OId) (hx : x < off) :
+    let t := (run (s.double off) ops).1
+    t.children x = s.children x ∧ t.wirePins x = s.wirePins x ∧ t.pinWire x = s.pinWire x ∧
+    t.instRef x = s.instRef x ∧ t.instPins x = s.instPins x ∧ t.ports x = s.ports x ∧ t.top x = s.top x := by
+  have h := (clone_edits_invisible_in_original s off hb ops ho).1.f1 x (Nat.not_le.mpr hx)
+  grind
+
+/-- **Independence (original → copy)**: later edits of the original — any history of public calls that
+    mention only objects below `off` (the originals and anything new created on their side) — never show
+    in the copy: every field of every object of the copy is what it was right after cloning (which by
+    `cloneNetlist_iso` is the shifted image of the original AT CLONE TIME), and the regions stay separated. -/
+theorem original_edits_invisible_in_clone (s : S) (off : OId) (hb : Below s off) (ops : List Op)
+    (ho : ∀ op ∈ ops, op.below off) :
+    OutEq (run (s.double off) ops).1 (s.double off) (OrigR off) ∧ Sep (run (s.double off) ops).1 (OrigR off) := by
+  have h := run_sep (OrigR off) ops (s.double off) (sep_double' s off hb) (fun op hm => below_inside off op (ho op hm))
+  exact ⟨h.2, h.1⟩
+
+/-- in plain words: the twin `x + off` keeps the shifted fields of `x` as they were when the clone was taken -/
+theorem original_edits_invisible_fields (s : S) (off : OId) (hb : Below s off) (ops : List Op)
+    (ho : ∀ op ∈ ops, op.below off) (x : OId) :
+    let t := (run (s.double off) ops).1
+    t.children (x + off) = shL off (s.children x) ∧ t.wirePins (x + off) = shPL off (s.wirePins x) ∧
+    t.pinWire (x + off) = shO off (s.pinWire x) ∧ t.instRef (x + off) = shO off (s.instRef x) ∧
+    t.instPins (x + off) = shL off (s.instPins x) ∧ t.top (x + off) = shO off (s.top x) := by
+  have h := (original_edits_invisible_in_clone s off hb ops ho).1.f1 (x + off) (by simp [OrigR])
+  have i := (cloneNetlist_iso s off).1 x
+  grind
 
 /-- **For every reachable heap**: whatever history of public calls built it (all objects mentioned lying
     below `off`, which is how fresh objects are numbered), cloning gives a heap in which originals and
